@@ -10,7 +10,8 @@ Statement of the property, clause by clause:
 * "sharing interned names between threads never changes, loses or mixes up a name"
   — `intern_returns_equal_name`, `interning_never_mixes`, `par_load_items`
 * "for every thread count and every interleaving, loading yields the same font as the sequential build"
-  — `par_load_eq_seq` (one layer, any initial name list), `par_load_fails_iff_seq_fails`,
+  — `par_load_eq_seq` (one layer as a map, any initial name list), `par_load_eq_seq_sorted` (the same as
+  the sorted list `BTreeMap` iteration shows, for any strict total order on names), `par_load_fails_iff_seq_fails`,
   `par_font_eq_seq` (all layers, the name list carried from layer to layer)
 * "saving yields the same bytes" — `par_save_eq_seq` under the guard *the files named in `contents` are
   pairwise distinct*; without the guard the statement is false: `par_save_eq_seq_counterexample`
@@ -84,6 +85,29 @@ theorem par_load_eq_seq (b : Bool) (s0 s0' : NameSet) (n0 n0' : Nat) (files : Li
   have nd : (((files.map File.expect).filterMap IView.glyph?).map View.name).Nodup :=
     (expect_names_sublist files).nodup hkeys
   rw [layerOf_perm h1.symm nd]
+
+/-- the same with the layer kept as `BTreeMap` shows it — a list sorted by glyph name: for every strict
+    total order `lt` on names, every complete schedule yields the sequential list, entry for entry -/
+theorem par_load_eq_seq_sorted (lt : Str → Str → Bool) (hlt : StrictTotal lt) (b : Bool) (s0 s0' : NameSet)
+    (n0 n0' : Nat) (files : List File) (assign : List (List File)) (sched : List Nat)
+    (hassign : assign.flatten.Perm files) (hkeys : (files.map File.key).Nodup)
+    (hd : (run b sched (St.init s0 n0 assign)).allDone = true) :
+    sortedLayerOf lt ((run b sched (St.init s0 n0 assign)).sh.out.map Item.view) =
+      sortedLayerOf lt ((seqItems b s0' n0' files).2.2.map Item.view) := by
+  rw [seqItems_views]
+  have h1 := (done_out_perm b s0 n0 assign sched hd).trans (hassign.map File.expect)
+  have nd : (((files.map File.expect).filterMap IView.glyph?).map View.name).Nodup :=
+    (expect_names_sublist files).nodup hkeys
+  rw [sortedLayerOf_perm hlt h1.symm nd]
+
+/-- … in particular for the order `BTreeMap<Name, _>` uses (non-vacuity of the hypothesis `StrictTotal`) -/
+theorem par_load_eq_seq_btree (b : Bool) (s0 s0' : NameSet)
+    (n0 n0' : Nat) (files : List File) (assign : List (List File)) (sched : List Nat)
+    (hassign : assign.flatten.Perm files) (hkeys : (files.map File.key).Nodup)
+    (hd : (run b sched (St.init s0 n0 assign)).allDone = true) :
+    sortedLayerOf lexLt ((run b sched (St.init s0 n0 assign)).sh.out.map Item.view) =
+      sortedLayerOf lexLt ((seqItems b s0' n0' files).2.2.map Item.view) :=
+  par_load_eq_seq_sorted lexLt lexLt_strictTotal b s0 s0' n0 n0' files assign sched hassign hkeys hd
 
 /-- a parallel load fails iff some file fails iff the sequential load fails -/
 theorem par_load_fails_iff_seq_fails (b : Bool) (s0 s0' : NameSet) (n0 n0' : Nat) (files : List File)
@@ -210,6 +234,11 @@ example : ((run true race (St.init [] 0 [[fA], [fa]])).sh.out.map
     (fun | .glyph g => g.comps.map NameObj.tag | _ => [])) = [[2], [2]] := by decide
 
 example : (([⟨['a'], ['f']⟩, ⟨['b'], ['g']⟩] : List Entry).map Entry.path).Nodup := by decide
+
+/-- the sorted collector on the racing schedule: `A` before `a` -/
+example : sortedLayerOf lexLt
+    ((run false race (St.init [] 0 [[fa], [fA]])).sh.out.map Item.view) =
+    some [⟨['A'], [['b']], 1⟩, ⟨['a'], [['b']], 2⟩] := by decide
 
 end examples
 
